@@ -81,3 +81,15 @@ package mount
 //@   ensures result.1 == nil && len(m.Data) == 0 ==> result.0.Data == nil
 //@   ensures result.1 == nil && len(m.Data) != 0 ==> result.0.Data != nil && cstr(result.0.Data) == m.Data
 //@   ensures result.1 == nil ==> len(result.0.Prefixes) >= 1
+
+//@ func pkg/mount.isBindMountFileOrNotExists
+//@   trusted "stat of the bind source: file (needs mknod of the target) or directory"
+//@   pure
+//@ func pkg/mount.(*Builder).Build props C05
+//@   arith int
+//@   requires b != nil
+//@   assigns nothing
+//@   ensures result.1 == nil ==> len(result.0) == len(b.Mounts)
+//@   ensures result.1 == nil ==> forall k int :: 0 <= k && k < len(b.Mounts) ==> result.0[k].Flags == b.Mounts[k].Flags && cstr(result.0[k].Source) == b.Mounts[k].Source && cstr(result.0[k].Target) == b.Mounts[k].Target && cstr(result.0[k].FsType) == b.Mounts[k].FsType
+//@   loop 0: invariant -1 <= rangeindex && rangeindex < len(b.Mounts) && len(ret) == rangeindex + 1 && cap(ret) == len(b.Mounts) && (fresh(ret) || cap(ret) == 0) && soff(ret) == 0
+//@   loop 0: invariant forall k int :: 0 <= k && k <= rangeindex ==> ret[k].Flags == b.Mounts[k].Flags && cstr(ret[k].Source) == b.Mounts[k].Source && cstr(ret[k].Target) == b.Mounts[k].Target && cstr(ret[k].FsType) == b.Mounts[k].FsType
